@@ -77,6 +77,7 @@ type Task struct {
 	Parent int
 
 	gid        uint64
+	mark       *taskMark
 	gate       chan struct{}
 	state      uint8
 	kill       bool
@@ -294,14 +295,7 @@ func Current() (*Sim, *Task) {
 	if s == nil {
 		return nil, nil
 	}
-	g := goid()
-	for i := 0; i < s.ntasks; i++ {
-		t := s.tasks[i]
-		if t.gid == g && t.state != stDone {
-			return s, t
-		}
-	}
-	return s, nil
+	return s, boundTask(s)
 }
 
 //go:norace
@@ -377,7 +371,7 @@ func (t *Task) NoteAcquire() { t.acqInOp++ }
 //go:norace
 func (s *Sim) taskMain(t *Task, f func()) {
 	defer s.taskExit(t)
-	t.gid = goid()
+	bindTask(t)
 	s.park(t, OpStart, nil)
 	f()
 }
@@ -391,6 +385,7 @@ func (s *Sim) taskExit(t *Task) {
 		t.panicStack = string(buf[:n])
 	}
 	t.state = stDone
+	unbindTask()
 	s.pokeNB()
 }
 
